@@ -327,6 +327,63 @@ pub fn net_acc_merge_needs_all_tx(repo: &PathBuf) -> Result<bool, String> {
     }
 }
 
+/// `Client::get_or_create_scratchpad` (the read of the vault write path): is a NEW vault created only when the read
+/// failed with `RecordNotFound` (`true`: a `match pad_res` whose only arm building `Scratchpad::new(..)` is the one for
+/// `Err(VaultError::Network(NetworkError::GetRecordError(GetRecordError::RecordNotFound)))`, every other `Err` arm
+/// returns an error), or on ANY failure of the read (`false`: `if let Ok(existing_data) = pad_res { .. } else { new }`)?
+pub fn vault_write_creates_only_on_not_found(vault: &syn::File) -> Result<bool, String> {
+    let rel = "autonomi/src/client/vault.rs:get_or_create_scratchpad";
+    let f = impl_fn(vault, "Client", None, "get_or_create_scratchpad")?;
+    let body = norm(&f.block);
+    if body.matches("get_vault_from_network(secret_key)").count() != 1 || !body.contains("letpad_res=self.get_vault_from_network(secret_key).await;") {
+        return Err(format!("{rel}: does not read the vault once into `pad_res`"));
+    }
+    if body.matches("Scratchpad::new(").count() != 1 {
+        return Err(format!("{rel}: expected exactly one `Scratchpad::new(..)`"));
+    }
+    let mut m = MatchOn { needle: "pad_res", arms: None };
+    m.visit_block(&f.block);
+    match m.arms {
+        Some(arms) => {
+            let mut saw_nf = false;
+            let mut saw_ok = false;
+            for (pat, arm_body) in &arms {
+                let b = norm(arm_body);
+                let p = pat.replace(",)", ")");
+                if p.starts_with("Ok(") {
+                    saw_ok = true;
+                    if b.contains("Scratchpad::new(") {
+                        return Err(format!("{rel}: the Ok arm builds a new scratchpad"));
+                    }
+                } else if p == "Err(VaultError::Network(NetworkError::GetRecordError(GetRecordError::RecordNotFound)))" {
+                    saw_nf = true;
+                    if !b.contains("Scratchpad::new(client_pk,content_type)") || b.contains("return") {
+                        return Err(format!("{rel}: the RecordNotFound arm does not build the new scratchpad"));
+                    }
+                } else if p.starts_with("Err(") {
+                    if !b.contains("returnErr(") || b.contains("Scratchpad::new(") {
+                        return Err(format!("{rel}: the arm `{pat}` does not return an error"));
+                    }
+                } else {
+                    return Err(format!("{rel}: unexpected arm `{pat}`"));
+                }
+            }
+            if saw_nf && saw_ok {
+                Ok(true)
+            } else {
+                Err(format!("{rel}: `match pad_res` lacks the Ok / RecordNotFound arm"))
+            }
+        }
+        None => {
+            if body.contains("letscratch=ifletOk(existing_data)=pad_res{") && body.contains("}else{trace!(\"newscratchpadcreation\");Scratchpad::new(client_pk,content_type)}") {
+                Ok(false)
+            } else {
+                Err(format!("{rel}: neither the known `if let Ok(..) = pad_res {{..}} else {{ new }}` nor a recognised `match pad_res`"))
+            }
+        }
+    }
+}
+
 pub fn generate(repo: &PathBuf) -> Result<String, String> {
     let net_split_checks = net_split_checks_pad_key(repo)?;
     let net_split_reg_checks = net_split_reg_checks_key(repo)?;
@@ -346,9 +403,29 @@ pub fn generate(repo: &PathBuf) -> Result<String, String> {
     let mut ifs = ErrIfs::default();
     ifs.visit_block(&chunk_get.block);
     // `if <recomputed address of chunk> != <addr> { .. Err }`
-    let compares = ifs.found.iter().any(|(c, then)| {
-        c.contains("!=") && c.contains("addr") && (c.contains("chunk.name()") || c.contains("chunk.address()")) && then.contains("returnErr(")
-    });
+    // exactly: the name recomputed from the deserialised content (`chunk` bound once from `try_deserialize_record(&record)`,
+    // `Chunk::new` hashes the value on deserialisation) against the REQUESTED address (the parameter `addr`, never rebound);
+    // a comparison with anything else — e.g. an address derived from `record.key`, which the replying holder chooses — is
+    // not this check. Any other `!=` that mentions the chunk's name/address is refused rather than guessed at.
+    let addr_is_param = chunk_get.sig.inputs.iter().any(|a| matches!(a, syn::FnArg::Typed(t) if norm(&t.pat) == "addr"));
+    let addr_rebound = body.contains("letaddr=") || body.contains("letmutaddr") || body.contains(";addr=") || body.contains("{addr=");
+    let chunk_bound_once = body.matches("letchunk:Chunk=try_deserialize_record(&record)?;").count() == 1 && body.matches("letchunk").count() == 1;
+    if !addr_is_param || addr_rebound {
+        return Err(format!("{rel_pub}:chunk_get: `addr` is not a parameter that is never rebound"));
+    }
+    let name_cmps: Vec<&(String, String)> = ifs.found.iter().filter(|(c, _)| c.contains("!=") && (c.contains("chunk.name()") || c.contains("chunk.address()"))).collect();
+    let compares = match name_cmps.as_slice() {
+        [] => false,
+        [(c, then)] => {
+            let exact = ["chunk.name()!=&addr", "*chunk.name()!=addr", "&addr!=chunk.name()", "addr!=*chunk.name()", "chunk.address().xorname()!=&addr", "*chunk.address().xorname()!=addr"];
+            if exact.contains(&c.as_str()) && then.contains("returnErr(") && chunk_bound_once {
+                true
+            } else {
+                return Err(format!("{rel_pub}:chunk_get: the chunk's name is compared in an unknown way: `{c}`"));
+            }
+        }
+        _ => return Err(format!("{rel_pub}:chunk_get: the chunk's name is compared more than once")),
+    };
 
     // ---- get_vault_from_network
     let get_vault = impl_fn(&vault, "Client", None, "get_vault_from_network")?;
@@ -427,6 +504,9 @@ pub fn generate(repo: &PathBuf) -> Result<String, String> {
     s.push_str(&format!("def netSplitChecksPadKey : Bool := {}\n", lean_bool(net_split_checks)));
     s.push_str("/-- `Network::handle_split_record_error`, `Register` arm: a register whose own address does not map to the record key being read is skipped before it is verified or collected -/\n");
     s.push_str(&format!("def netSplitRegChecksKey : Bool := {}\n", lean_bool(net_split_reg_checks)));
+    let write_only_nf = vault_write_creates_only_on_not_found(&vault)?;
+    s.push_str("/-- `Client::get_or_create_scratchpad`: a new vault is created (and paid for) only when the read failed with `RecordNotFound`; any other failure of the read is an error of the write (false: every failed read was taken for 'no vault yet') -/\n");
+    s.push_str(&format!("def vaultWriteCreatesOnlyOnNotFound : Bool := {}\n", lean_bool(write_only_nf)));
     s.push_str("/-- `SwarmDriver::accumulate_get_record_found`, split branch: the union of the versions' transactions is answered as one record only when every version decoded as transactions (false: as soon as any did; versions of another kind were silently left out) -/\n");
     s.push_str(&format!("def netAccMergeNeedsAllTx : Bool := {}\n", lean_bool(net_acc_needs_all_tx)));
     s.push_str("end SafeNet.Gen.ClientRead\n");
